@@ -29,6 +29,9 @@ def run(ctx):
     from . import c16
 
     from . import c17 as _c17
+    from . import c11 as _c11
+
+    ctx.each(_c11.r11a, ctx, repo)  # the coverages handed to the weighting code lie in [0, 1]: get_prop_covered caps at 1 (not at the saturation level)
 
     ctx.each(_c17.r17e, ctx, repo)  # sampling adds noise to the stored deltas: with zero uncertainty the stored explicit outcomes stay relative to the baseline
     ctx.each(c16.cache_refresh_rule, ctx, repo, "R12i")
